@@ -41,7 +41,7 @@ META={
    "Rectangular CSV/TSV tables and NDJSON streams are detected at EVERY limit from just past the second line to len; tables with one damaged complete line (up to 530 rows) and line soups with malformed lines must not be reported; markup-like first cells; a verdict of another text format needs that format's pinned signature."+HELD,
    "Trusted: refjson for per-line completeness; 'complete line' = newline-terminated inside a cut header; comment-line dialect per the converse clause."),
  "C14":M("exploration","C14","model-based checking of Extend histories (independent walk + harness-side extension list), Lookup and earlier-value checks, fresh-process histories, concurrent registration rounds",
-   "Thousands of random Extend histories (root, built-ins at any depth by name or alias, earlier extensions; 9 predicate kinds) are applied to the library and mirrored in the model; ~80 inputs x 3 limits per history are compared with the model and with the pre-history baseline, every name/alias is looked up (before and after registration; names and extensions are sometimes re-used; a registered name that is no longer found is a violation), values returned mid-history are re-read; a sample of histories runs in fresh processes without the reset hook; detections go through Detect, oddly chunked DetectReader and DetectFile."+HELD,
+   "Thousands of random Extend histories (root, built-ins at any depth by name or alias, earlier extensions; 9 predicate kinds) are applied to the library and mirrored in the model; ~80 inputs x 3 limits per history are compared with the model and with the pre-history baseline, every name/alias is looked up (before and after registration; names and extensions are sometimes re-used; a registered name that is no longer found is a violation), values returned mid-history are re-read; a sample of histories runs in fresh processes without the reset hook; detections go through Detect, oddly chunked DetectReader and DetectFile. In one history in five 2-3 extensions are registered from a family table (the same alias slice, listing all members, handed to each Extend call); the model goes by a copy the library never sees."+HELD,
    "Trusted: extension detectors shared with the model; the model's insertion rule is the statement's."),
  "C15":M("exploration","C15","exhaustive (format x name) matrix with random well-formed decorations against a 3-line normaliser; self-equality of every detection result",
    "Exhaustive format x registered-name matrix undecorated and with random case / whitespace / parameter decorations (quoted, RFC 2231), EqualsAny over decorated pairs, Lookup(a).Is(a) for every name and alias, and for detection results (incl. quoted / RFC 2231 charsets) d.Is(d.String()), EqualsAny, Lookup of the bare type, ancestors answering to their aliases; names registered at run time with alias slices whose spare capacity is watched for writes."+HELD,
